@@ -90,15 +90,32 @@ def tuple_eq(a, b): return b_and(*[simp(x == y) for x, y in zip(a, b)]) if a els
 
 
 def render_key(term, ev):
-    """concrete key string of a key term under a model-evaluation function"""
+    """concrete key string of a key term under a model-evaluation function (the text the real code builds: template literals,
+    separators, Debug quoting of strings, std's renderings of the aggregate shapes the corpus uses)"""
+    from .vc_keys import decode_template
+    def val(v, kind):
+        v = deref_all(v) if not isinstance(v, (Str, Agg)) else v
+        if isinstance(v, Str):
+            inner = render_key(v, ev); return '"' + inner + '"' if kind == 'debug' else inner
+        if isinstance(v, Agg) and v.ty == 'Svc': return 'Svc { id: %d }' % ev(v.fields[0])
+        if isinstance(v, Agg) and v.ty == 'tuple': return '(' + ', '.join(val(x, 'debug') for x in v.fields) + (',)' if len(v.fields) == 1 else ')')
+        if isinstance(v, Agg) and v.ty == 'Option': return 'None' if v.variant == 0 else 'Some(' + val(v.fields[0], 'debug') + ')'
+        if isinstance(v, bool): return 'true' if v else 'false'
+        return str(ev(v))
+    def fill(tmpl, args):
+        try: pieces = decode_template(tmpl[1] if isinstance(tmpl, tuple) else tmpl)
+        except Exception: pieces = [('arg',)] * len(args)
+        out = ''; i = 0
+        for p in pieces:
+            if p[0] == 'lit': out += p[1]
+            elif i < len(args): out += val(args[i][1], args[i][0]); i += 1
+        return out
     t = term.t
     if isinstance(t, str): return t
     if isinstance(t, tuple) and t[0] == 'join': return t[1].join(render_key(x, ev) for x in t[2])
-    if isinstance(t, tuple) and t[0] == 'fmt':
-        v = t[3]
-        if isinstance(v, Str): return '"' + render_key(v, ev) + '"'
-        if isinstance(v, Agg) and v.ty == 'Svc': return 'Svc { id: %d }' % ev(v.fields[0])
-        return str(ev(v))
+    if isinstance(t, tuple) and t[0] == 'concat': return ''.join(render_key(x, ev) for x in t[1])
+    if isinstance(t, tuple) and t[0] == 'fmt': return fill(t[2], [(t[1], t[3])])
+    if isinstance(t, tuple) and t[0] == 'fmtn': return fill(t[1], [(k, v) for k, v, ty in t[2]])
     return '?'
 
 
